@@ -8,7 +8,7 @@ from .. import core, gen, hist, model
 from ..session import Outcome
 from . import PropBase, steps_with_ids
 
-FAULTS = ("clear", "clear_typing", "low_headroom_build", "order", "reclimit", "twin")
+FAULTS = ("clear", "clear_typing", "low_headroom_build", "exhaust_scan", "order", "reclimit", "twin")
 
 UPLUS_SRC = '''
 VwT = typing.TypeVar("VwT")
@@ -73,6 +73,7 @@ PROBES = [None, 1, "a", "1", {"$f": "1.5"}, True, {"$list": [1, "a", None]}, {"$
 
 class C15(PropBase):
     ID = "C15"
+    NEEDS_COLD = True
     TIMEOUT_IS_VERDICT = True
     QUICK_RUNS = 2500
     THOROUGH_RUNS = 80000
@@ -128,7 +129,14 @@ class C15(PropBase):
                 if "low_headroom_build" in sw and rng.random() < 0.25:
                     step["depth"] = rng.randint(880, 985)
                     step["low"] = True
+                elif "exhaust_scan" in sw and rng.random() < 0.35:
+                    # the build is first attempted from every stack depth at which it cannot
+                    # complete (RecursionError one frame further in each time), then at normal depth
+                    step["scan"] = True
                 steps.append(step)
+                if step.get("scan"):
+                    steps.append({"op": "probe", "t": t, "x": copy.deepcopy(rng.choice(PROBES)), "dir": rng.choice(["unmarshal", "unmarshal", "marshal"]),
+                                  "mod": "vw0", "pass": passthrough})
             else:
                 x = copy.deepcopy(rng.choice(PROBES))
                 steps.append({"op": "probe", "t": t, "x": x, "dir": rng.choice(["unmarshal", "unmarshal", "marshal"]), "mod": "vw0", "pass": passthrough})
@@ -141,6 +149,15 @@ class C15(PropBase):
         sess.probe_memo = {}
         sess.build_memo = {}
         sess.drop_refs_on_clear = True
+        sess.scanned = set()
+
+    def pre_op(self, sess, i, step):
+        import typelib
+
+        if step["op"] == "build" and step.get("scan") and not sess.is_cold:
+            aborted, _ = sess.scan_exhaust(step, getattr(typelib, step["kind"]), sess.T(step))
+            if aborted:
+                sess.scanned.add(core.jdump(step["t"]))
 
     def exec_op(self, sess, i, step):
         import typelib
@@ -244,6 +261,17 @@ class C15(PropBase):
                 return
         key = core.jdump([step["t"], step["x"], step["dir"]])
         mine = out.canon()
+        if core.jdump(step["t"]) in sess.scanned:
+            # builds of this annotation were cut short by RecursionError at every point they pass
+            # through: the routine that finally got built must behave like one built in a cold process
+            cold = sess.cold_exec({k: v for k, v in step.items() if k != "depth"})
+            if "error" in cold:
+                raise RuntimeError(f"harness: cold execution failed: {cold['error']}")
+            sess.probes["probe_after_exhaust_scan_vs_cold"] += 1
+            if cold.get("trepr") == sess.trepr(step) and cold["canon"] != mine:
+                sess.violation("behaviour-not-repeatable", i, {"t": tsrc, "x": repr(step["x"])[:80], "dir": step["dir"], "cold": _s(cold["canon"]), "now": _s(mine),
+                                                               "via": "builds aborted by RecursionError earlier in the run"}, sig=f"not-repeatable:after-exhaust:{_tclass(step['t'])}")
+                return
         prev = sess.probe_memo.get(key)
         if prev is not None and prev != mine:
             sess.violation("behaviour-not-repeatable", i, {"t": tsrc, "x": repr(step["x"])[:80], "dir": step["dir"], "before": _s(prev), "now": _s(mine)},
